@@ -103,6 +103,10 @@ func init() {
 
 // the first error any Compile returns is remembered; an identical value later is "stored"
 func c20ObserveCompiles(in any, n int, compile func(k int) (c20RunFn, error)) c20Obs {
+	return c20ObserveCompilesR(in, n, true, compile)
+}
+
+func c20ObserveCompilesR(in any, n int, run bool, compile func(k int) (c20RunFn, error)) c20Obs {
 	var obs c20Obs
 	cl := &c20Classifier{}
 	var first c20RunFn
@@ -115,7 +119,7 @@ func c20ObserveCompiles(in any, n int, compile func(k int) (c20RunFn, error)) c2
 			obs.Notes = append(obs.Notes, fmt.Sprintf("compile %d panicked: %v", k, pv))
 		}
 		cl.remember(err)
-		if err == nil && !panicked && first == nil {
+		if err == nil && !panicked && first == nil && run {
 			first = r
 			cls, d := c20RunOnce(first, in)
 			obs.R1 = append(obs.R1, cls)
@@ -207,9 +211,12 @@ func c20ExecWorkflow(c *c20Case) c20Obs {
 	build := func() {
 		for _, n := range x.Nodes {
 			var wn *compose.WorkflowNode
-			if n.PT {
+			switch {
+			case n.InKey || n.OutKey:
+				wn = c20WfAddKeyed(wf, &n)
+			case n.PT:
 				wn = wf.addPassthrough(n.Key)
-			} else {
+			default:
 				wn = wf.addLambda(n.Key, c20Lambdas[n.In+">"+n.Out](n.Dyn))
 			}
 			addIns(wn, n.Ins)
@@ -227,7 +234,7 @@ func c20ExecWorkflow(c *c20Case) c20Obs {
 		}
 	}
 	comps := c20CompileOps(c)
-	return c20ObserveCompiles(c20Val(c20FirstInhabitant(c.InT)), len(comps), func(k int) (c20RunFn, error) {
+	return c20ObserveCompilesR(c20Val(c20FirstInhabitant(c.InT)), len(comps), !c.NoRun, func(k int) (c20RunFn, error) {
 		if !built {
 			built = true
 			build()
@@ -242,14 +249,20 @@ func c20ExpectedDeferred(c *c20Case, m *c20Model) []string {
 	var out []string
 	deferredFailed := false // a lowered Add* call failed: its error is stored and surfaces at every Compile
 	surfaced := false
+	deferredPanic := false // a lowered call panics (keyed model with other fact values): the Compile that replays it does
 	for i, op := range c.Ops {
 		if op.Op != "compile" {
+			if m.Out[i] == "panic" && !deferredFailed {
+				deferredPanic = true
+			}
 			if m.Out[i] != "ok" && m.Out[i] != "compiled" {
 				deferredFailed = true
 			}
 			continue
 		}
 		switch {
+		case deferredPanic:
+			out = append(out, "panic")
 		case deferredFailed && !surfaced:
 			out = append(out, "fresh")
 			surfaced = true
@@ -368,7 +381,7 @@ func c20LowerWorkflow(c *c20Case) {
 	x := c.Extra
 	var ops []c20Op
 	for _, n := range x.Nodes {
-		ops = append(ops, c20Op{Op: "node", Key: n.Key, PT: n.PT, In: n.In, Out: n.Out, Dyn: n.Dyn})
+		ops = append(ops, c20Op{Op: "node", Key: n.Key, PT: n.PT, In: n.In, Out: n.Out, Dyn: n.Dyn, InKey: n.InKey, OutKey: n.OutKey})
 	}
 	for _, b := range x.Branch {
 		bb := b
